@@ -1,6 +1,7 @@
 package main
 
 import (
+	"net/http/httptest"
 	"context"
 	"encoding/json"
 	"fmt"
@@ -244,6 +245,9 @@ func (c *rpcComp) Exec(t []string) (extra []string, out string, eff bool) {
 			method = "relay"
 		}
 		depth, _ := strconv.Atoi(get("descend"))
+		if tr := get("transport"); tr == "local" || tr == "http" {
+			return nil, stormOver(tr, n, method), true
+		}
 		return nil, rpcStorm(n, l, d, method, depth), true
 	}
 	if c.codec == nil {
@@ -553,6 +557,57 @@ func (StormRecv) Descend(ctx context.Context, n int) (int, error) {
 	return res + 1, nil
 }
 
+// stormOver: the same storm over the two other transports of the library: Local (in-process, the service in the
+// handler's context is the Local itself) and HTTPService -> HTTPServer (one request per call, no call-backs).
+func stormOver(transport string, n int, method string) string {
+	var svc jsonrpc2.Service
+	switch transport {
+	case "local":
+		loc := &jsonrpc2.Local{}
+		loc.Server.Register("", StormRecv{})
+		svc = loc
+	case "http":
+		h := &jsonrpc2.HTTPServer{}
+		h.Server.Register("", StormRecv{})
+		hs := httptest.NewServer(h)
+		defer hs.Close()
+		svc = &jsonrpc2.HTTPService{Endpoint: hs.URL}
+		method = "echo"
+	}
+	var wg sync.WaitGroup
+	var mu sync.Mutex
+	returned, own := 0, 0
+	for i := 0; i < 2*n; i++ {
+		wg.Add(1)
+		go func(i int) {
+			defer wg.Done()
+			tok := fmt.Sprintf("t%d-%s", i, strings.Repeat("y", i%13))
+			ctx, cancel := context.WithTimeout(context.Background(), 5*time.Second)
+			defer cancel()
+			var res string
+			err := svc.Call(ctx, &res, method, tok)
+			mu.Lock()
+			if err == nil {
+				returned++
+				if res == tok {
+					own++
+				}
+			}
+			mu.Unlock()
+		}(i)
+	}
+	done := make(chan struct{})
+	go func() { wg.Wait(); close(done) }()
+	select {
+	case <-done:
+	case <-time.After(12 * time.Second):
+		mu.Lock()
+		defer mu.Unlock()
+		return fmt.Sprintf("wedged returned=%d own=%d", returned, own)
+	}
+	return fmt.Sprintf("ok returned=%d own=%d", returned, own)
+}
+
 func rpcStorm(n, limit, discard int, method string, depth int) string {
 	a, b := jsonrpc2.ServePipe()
 	a.PendingLimit, a.PendingDiscard = limit, discard
@@ -625,6 +680,10 @@ func (v *rpcStormVariant) Prefix() string { return "rpc" }
 func (v *rpcStormVariant) Gen(r *rand.Rand, idx int, emit func(string)) {
 	cfgs := [][3]int{{70, 50, 10}, {20, 5, 2}, {100, 50, 10}, {30, 0, 0}, {64, 8, 8}}
 	c := cfgs[idx%len(cfgs)]
+	if idx%9 == 6 || idx%9 == 8 {
+		emit(fmt.Sprintf("storm callers=%d limit=0 discard=0 transport=%s%s", 30+10*(idx%4), []string{"local", "http"}[(idx/9+idx)%2], []string{"", " relay=1"}[idx%2]))
+		return
+	}
 	switch idx % 3 {
 	case 1:
 		// every handler calls back over the connection before answering
